@@ -1915,6 +1915,51 @@ func listContrib(f *ssa.Function, depth int, busy map[*ssa.Function]bool) map[st
 			}
 		}
 	}
+	// appends in the body of a loop over an iterator function (`for j := range r.journals()`): the body is a
+	// function of its own; each append in it (outside loops of its own) contributes, per invocation, whatever the
+	// iterator yields - and the iterator's yield sites are classified like append sites
+	for _, y := range f.AnonFuncs {
+		if y.Synthetic != "range-over-func yield" {
+			continue
+		}
+		var iters []*ssa.Function
+		for _, b := range f.Blocks {
+			for _, ins := range b.Instrs {
+				mc, ok := ins.(*ssa.MakeClosure)
+				if !ok || mc.Fn != ssa.Value(y) {
+					continue
+				}
+				for _, r := range *mc.Referrers() {
+					if c, ok := r.(*ssa.Call); ok && c.Call.Value != ssa.Value(mc) {
+						iters = append(iters, receiversOfCall(c)...)
+					}
+				}
+			}
+		}
+		for _, b := range y.Blocks {
+			for _, ins := range b.Instrs {
+				call, ok := ins.(*ssa.Call)
+				if !ok || !ret[call] {
+					continue
+				}
+				if bi, ok := call.Call.Value.(*ssa.Builtin); !ok || bi.Name() != "append" || len(call.Call.Args) < 2 {
+					continue
+				}
+				mult := 1
+				if inCycle(b) {
+					mult = 100
+				}
+				if len(iters) == 0 {
+					out["F"] += 100 // an iterator that cannot be resolved: multiplicity unknown
+				}
+				for _, it := range iters {
+					for k, v := range yieldContrib(it) {
+						out[k] += v * mult
+					}
+				}
+			}
+		}
+	}
 	for _, b := range f.Blocks {
 		for _, ins := range b.Instrs {
 			call, ok := ins.(*ssa.Call)
@@ -2018,6 +2063,9 @@ func balanceAddSites(c *Ctx, f *ssa.Function) []balanceAddSite {
 				}
 			}
 		}
+		for _, a := range g.AnonFuncs {
+			walk(a, depth+1) // visitors and loop bodies over iterators
+		}
 	}
 	walk(f, 0)
 	var out []balanceAddSite
@@ -2058,6 +2106,53 @@ func balanceAddSites(c *Ctx, f *ssa.Function) []balanceAddSite {
 					}
 					if (isNilCmp(bo.X, bo.Y) || isNilCmp(bo.Y, bo.X)) && ((bo.Op == token.NEQ && cc.Taken) || (bo.Op == token.EQL && !cc.Taken)) {
 						guarded = true
+					}
+				}
+				// the amount is handed to a visitor / loop body by value or by pointer: the nil test sits where the
+				// callback is invoked
+				if !guarded {
+					var cbParam *ssa.Parameter
+					switch r := amountPtr.(type) {
+					case *ssa.Parameter:
+						cbParam = r
+					case *ssa.Alloc:
+						for _, ref := range *r.Referrers() {
+							if st, ok := ref.(*ssa.Store); ok && st.Addr == ssa.Value(r) {
+								if p, ok := st.Val.(*ssa.Parameter); ok {
+									cbParam = p
+								}
+							}
+						}
+					}
+					if cbParam != nil && g.Parent() != nil {
+						invs := callbackInvocations(cbParam)
+						all := len(invs) > 0
+						for _, inv := range invs {
+							ptr := inv.arg
+							if ld, ok := ptr.(*ssa.UnOp); ok && ld.Op == token.MUL {
+								if _, isPtr := ld.X.Type().Underlying().(*types.Pointer); isPtr {
+									ptr = ld.X // passed by value: *ptr
+								}
+							}
+							okInv := false
+							for _, cc := range controlCondsPol(inv.call.Block()) {
+								bo, ok := cc.Cond.(*ssa.BinOp)
+								if !ok {
+									continue
+								}
+								isNil := func(x, y ssa.Value) bool {
+									k, isK := y.(*ssa.Const)
+									return isK && k.IsNil() && (x == ptr || sameLoad(x, ptr))
+								}
+								if (isNil(bo.X, bo.Y) || isNil(bo.Y, bo.X)) && ((bo.Op == token.NEQ && cc.Taken) || (bo.Op == token.EQL && !cc.Taken)) {
+									okInv = true
+								}
+							}
+							if !okInv {
+								all = false
+							}
+						}
+						guarded = all
 					}
 				}
 				// the amount is a parameter of a helper: the nil test sits at the helper's call sites
@@ -2186,6 +2281,56 @@ func listBuilders(v ssa.Value, stack []*ssa.Call, depth int, seen map[ssa.Value]
 					if st, ok := r.(*ssa.Store); ok && st.Addr == ssa.Value(al) {
 						out = append(out, listBuilders(st.Val, stack, depth+1, seen)...)
 					}
+				}
+			}
+		}
+	}
+	return out
+}
+
+// yieldContrib: what an iterator function hands to its consumer, and how often: its yield calls classified like
+// the append sites of listContrib (primary journal outside loops: P once; the file at the current position of a
+// loop over FileOrder: F once per position; anything else: many).
+func yieldContrib(it *ssa.Function) map[string]int {
+	out := map[string]int{}
+	if it == nil || len(it.Params) == 0 {
+		return out
+	}
+	yp := it.Params[len(it.Params)-1]
+	for _, b := range it.Blocks {
+		for _, ins := range b.Instrs {
+			d, ok := ins.(*ssa.Call)
+			if !ok || d.Call.Value != ssa.Value(yp) {
+				continue
+			}
+			sl := map[ssa.Value]bool{}
+			for _, a := range d.Call.Args {
+				for v := range backSlice(a) {
+					sl[v] = true
+				}
+			}
+			loops := enclosingListLoops(b)
+			switch {
+			case !inCycle(b):
+				if treeFieldRead(sl, "Primary") {
+					out["P"]++
+				}
+				if treeFieldRead(sl, "Files") {
+					out["F"] += 100
+				}
+			case len(loops) == 1 && treeFieldRead(backSlice(loops[0]), "FileOrder"):
+				if treeFieldRead(sl, "Files") || treeFieldRead(sl, "FileOrder") {
+					out["F"]++
+				}
+				if treeFieldRead(sl, "Primary") {
+					out["P"] += 100
+				}
+			default:
+				if treeFieldRead(sl, "Primary") {
+					out["P"] += 100
+				}
+				if treeFieldRead(sl, "Files") || treeFieldRead(sl, "FileOrder") {
+					out["F"] += 100
 				}
 			}
 		}
